@@ -226,4 +226,9 @@ func describeHistory(h []string) string {
 	return "never-touched"
 }
 
-func faultLabel(f fault) string { return strings.TrimSpace(f.Kind + "-" + f.Target) }
+func faultLabel(f fault) string {
+	if f.Point != "" {
+		return f.Kind + "(" + strings.TrimPrefix(f.Point, "flush-") + ")-" + f.Target
+	}
+	return f.Kind + "-" + f.Target
+}
